@@ -180,6 +180,35 @@ impl Family for AsyncFam {
     fn m_abortable(op: &AsOp) -> bool {
         !matches!(op, AsOp::NestedBlockOnYield | AsOp::NestedBlockOnFlag(_))
     }
+    fn objects_of(op: &AsOp) -> Vec<u32> {
+        match op {
+            AsOp::FlagWait(f) | AsOp::FlagSet(f) | AsOp::NestedBlockOnFlag(f) => vec![0xA00 + *f as u32],
+            AsOp::FlagWaitStart(f) => vec![0xA00 + *f as u32, 0xB00],
+            AsOp::FlagWaitShared => vec![0xB00, 0xA00, 0xA01],
+            AsOp::Yield | AsOp::NestedBlockOnYield => vec![],
+        }
+    }
+    /// setting a flag (atomic store) -> every later completed wait on that flag (atomic load)
+    fn hb_must(p: &Program<AsyncFam>, log: &[Entry<AsRes>]) -> Vec<(usize, usize)> {
+        let mut out = Vec::new();
+        let mut sets: std::collections::HashMap<usize, usize> = Default::default();
+        for (i, e) in log.iter().enumerate() {
+            let EKind::Ret(GRes::R(_)) = &e.kind else { continue };
+            let GOp::Op(op) = &p.threads[e.thread][e.op] else { continue };
+            match op {
+                AsOp::FlagSet(f) => {
+                    sets.entry(*f).or_insert(i);
+                }
+                AsOp::FlagWait(f) | AsOp::NestedBlockOnFlag(f) => {
+                    if let Some(s) = sets.get(f) {
+                        out.push((*s, i));
+                    }
+                }
+                _ => {}
+            }
+        }
+        out
+    }
     fn m_init(cfg: &usize, _n: usize) -> AsM {
         AsM {
             set: vec![false; *cfg],
